@@ -71,7 +71,7 @@ def run_cases(binary, wd, name, cases, j=None):
     os.makedirs(work, exist_ok=True)
     with open(inp, "w") as fh:
         json.dump({"cases": cases}, fh)
-    p = vlib.run([binary, "-in", inp, "-out", out, "-work", work, "-j", str(j or vlib.NCPU)], timeout=3000)
+    p = vlib.run([binary, "-in", inp, "-out", out, "-work", work, "-j", str(j or vlib.NCPU)], timeout=10000)
     shutil.rmtree(work, ignore_errors=True)
     info = json.loads(p.stdout.strip().splitlines()[-1])
     return out, info
